@@ -16,9 +16,9 @@ CONSTANTS
   MaxAged = 1
   Ops = {"flushall", "close"}
   CloseAfterWrites = TRUE
-  CloseDrains = FALSE
+  CloseDrains = TRUE
   Coarse = FALSE
   Emit = FALSE
 VIEW view
-INVARIANTS TypeOK Accounted NoDup LossExplained C03LossOnlyAbandoned
+INVARIANTS TypeOK Accounted NoDup NoLoss
 CHECK_DEADLOCK FALSE
